@@ -196,4 +196,4 @@ def _obligations():
 
 
 def obligations():
-    return _obligations() + [constructors_obligation(['cryomotl.Motl', 'cryomotl.EmMotl']), labels_obligation("C10"), selectors_obligation("C10"), mutations_obligation("C10"), effects_obligation("C10"), plumbing_obligation("C10"), overrides_obligation("C10"), options_obligation("C10"), handlers_obligation("C10")]
+    return _obligations() + [constructors_obligation(['cryomotl.Motl', 'cryomotl.EmMotl']), labels_obligation("C10"), selectors_obligation("C10"), mutations_obligation("C10"), loopstate_obligation("C10"), effects_obligation("C10"), plumbing_obligation("C10"), overrides_obligation("C10"), options_obligation("C10"), handlers_obligation("C10")]
